@@ -55,6 +55,7 @@ def plan(pid, tier):
         if not q:
             jobs = [arena_job("histories-core-d3-dev2", "core", 2, 3, 2, 300, tier), arena_job("histories-core-d4", "core", 2, 4, 1, 500, tier, min_aligns="1,8,16"), arena_job("allocator-api-sweep-dev1", "apisweep", 2, 5, 1, 600, tier)]
         jobs.append(arena_job("deep-narrow-d5" if q else "deep-narrow-d6", "deep", 2, 5 if q else 6, 1, 40 if q else 900, tier, min_aligns="1,8,16"))
+        jobs.append(grid_job("vec-bulk-writes-at-scale", "vecgrowth", 2, tier, slab_mb=64))
         return {"level": "model_checking", "jobs": jobs, "owns_crashes": True, "rule": RULE_ARENA, "assumptions": ARENA_ASSUME, "bounds": {"depth": 3 if q else 4, "deviations": 1 if q else 2}}
     if pid == "C03":
         jobs = [arena_job("histories-ledger", "ledger", 3, 3, 1, 45, tier)] if q else [arena_job("histories-ledger-d3-dev2", "ledger", 3, 3, 2, 300, tier), arena_job("histories-ledger-d4", "ledger", 3, 4, 1, 500, tier, min_aligns="1,8,16")]
@@ -166,6 +167,7 @@ def coll_plan(pid, tier):
     q = tier == "quick"
     if pid == "C13":
         jobs = [coll_job("vec-vs-std", "vec", 13, 4, 4, tier, 45), coll_job("vec-vs-std-long", "vec", 13, 2, 20, tier, 30), coll_job("vec-vs-std-scale", "vec", 13, 2, 260, tier, 40)] if q else [coll_job("vec-vs-std-len6", "vec", 13, 5, 6, tier, 900), coll_job("vec-vs-std-long", "vec", 13, 3, 40, tier, 300), coll_job("vec-vs-std-scale", "vec", 13, 3, 260, tier, 600), coll_job("vec-vs-std-len4-dbg", "vec", 13, 4, 4, tier, 300, build="dbg")]
+        jobs.append(grid_job("vec-capacity-at-scale", "vecgrowth", 13, tier, slab_mb=64))
         return {"level": "model_checking", "jobs": jobs, "owns_crashes": True, "rule": RULE_COLL, "assumptions": COLL_ASSUME, "bounds": {"max_len": 4 if q else 6, "depth": 4 if q else 5, "long_job": "vectors of 9 and 17 elements (up to 20; thorough 40) x 1 (thorough 2) further operations", "element_types": ["D", "u8", "Z"]}, "build_profiles": ("release",) if q else ("release", "dbg")}
     if pid == "C15":
         jobs = [coll_job("vec-drop-ledger", "vec", 15, 4, 4, tier, 45), coll_job("vec-drop-ledger-long", "vec", 15, 2, 20, tier, 30), coll_job("vec-drop-ledger-scale", "vec", 15, 2, 260, tier, 40), grid_job("box-chains", "box", 15, tier)] if q else [coll_job("vec-drop-ledger-len6", "vec", 15, 5, 6, tier, 900), coll_job("vec-drop-ledger-long", "vec", 15, 3, 40, tier, 300), coll_job("vec-drop-ledger-scale", "vec", 15, 3, 260, tier, 600), grid_job("box-chains", "box", 15, tier)]
